@@ -309,7 +309,7 @@ func stickyAnalyse(p *Prog, res *callResolver, pr stickyPair, passing map[sticky
 						case isErrorType(rt):
 							if cst, ok := r.(*ssa.Const); ok && cst.IsNil() {
 								problems = append(problems, fmt.Sprintf("a nil error is returned at %s", p.instrPos(in)))
-							} else if !ok && !errValueNonNil(r, errored) && !testedNonNil(r, b) {
+							} else if !ok && !feasiblyNonNil(r, errored, reach, b, 0) {
 								// an error obtained from somewhere else (the writer's own error state, the result of a write):
 								// nil whenever that something else went fine, although the frame is a failed one
 								problems = append(problems, fmt.Sprintf("the error returned at %s (%s) does not stem from the incoming error and is not known to be non-nil there: the operation reports success for a failed frame whenever nothing else goes wrong", p.instrPos(in), describe(r)))
@@ -325,6 +325,34 @@ func stickyAnalyse(p *Prog, res *callResolver, pr stickyPair, passing map[sticky
 		}
 		return problems, fmt.Sprintf("%d of %d blocks feasible; no kernel, no callback, errored result", len(reach), len(fn.Blocks))
 	}
+}
+
+// feasiblyNonNil: the error value v, used in block b, is non-nil on every path that is feasible under the errored
+// frame: it stems from the incoming error or a constructor, it was tested non-nil, or it is a phi all of whose
+// edges from feasible predecessors are.
+func feasiblyNonNil(v ssa.Value, errored map[ssa.Value]bool, reach map[*ssa.BasicBlock]bool, b *ssa.BasicBlock, d int) bool {
+	if errValueNonNil(v, errored) || testedNonNil(v, b) {
+		return true
+	}
+	phi, ok := v.(*ssa.Phi)
+	if !ok || d > 4 {
+		return false
+	}
+	n := 0
+	for i, e := range phi.Edges {
+		pred := phi.Block().Preds[i]
+		if !reach[pred] {
+			continue
+		}
+		n++
+		if cst, isC := e.(*ssa.Const); isC && cst.IsNil() {
+			return false
+		}
+		if !feasiblyNonNil(e, errored, reach, pred, d+1) {
+			return false
+		}
+	}
+	return n > 0
 }
 
 // testedNonNil: block b is entered only when v != nil.
